@@ -198,7 +198,7 @@ Fixpoint seq_match (c : cfg) (ss : list sext) (ws : list (N * bytes)) : bool :=
     | MustNot => seq_match c ss' ws
     | Must => match ws with w :: ws' => ext_matches c s w && seq_match c ss' ws' | [] => false end
     | May => match ws with
-             | w :: ws' => if ext_matches c s w then seq_match c ss' ws' else seq_match c ss' ws
+             | w :: ws' => (ext_matches c s w && seq_match c ss' ws') || seq_match c ss' ws
              | [] => seq_match c ss' []
              end
     end
